@@ -83,3 +83,26 @@ pub fn lo_entries(nodes: usize, entries: &[String]) {
         false,
     );
 }
+
+/// `ska lo`: the variant groups handed to the caller after traversal: one entry per (entry, exit) pair with
+/// the decoded path sequences, sorted; `kind` is "groups" (equal-length paths / SNPs) or "indels"
+pub fn lo_groups(kind: &str, groups: &[(String, String, Vec<String>)]) {
+    emit(
+        "lo.groups",
+        format!(
+            "\"kind\":\"{kind}\",\"groups\":[{}]",
+            groups
+                .iter()
+                .map(|(a, b, seqs)| format!(
+                    "{{\"entry\":\"{a}\",\"exit\":\"{b}\",\"seqs\":[{}]}}",
+                    seqs.iter()
+                        .map(|x| format!("\"{x}\""))
+                        .collect::<Vec<_>>()
+                        .join(",")
+                ))
+                .collect::<Vec<_>>()
+                .join(",")
+        ),
+        false,
+    );
+}
